@@ -29,9 +29,29 @@
    above needs MINIMALIF; (Fr), (Z/O), (U) need no hypothesis on the environment at all (they hold
    under every signature version). "Non-empty" (not "script-true") is what n promises: a 32-byte
    negative-zero preimage is a satisfying non-true top element ([C06_n_nonempty_not_true_remark]).
-   NOT yet proved (kept visible): Theorem B's table direction (a successful execution used a
-   table entry), f / e / s (statements about all stacks; s and f are being proved in
-   Proofs/Signed*.v). The per-run check enumerates input stacks for those. *)
+   Proved (Proofs/SignedSound.v; EVERY input stack, every alt stack, every fragment incl.
+   thresh / multi / multi_a / sortedmulti(_a) / raw_pk_h, every signature version):
+     * frame: a successful run of a well-typed fragment consumes a prefix p of the stack, restores
+       the alt stack and leaves the shape of its base type (B: one value; V: nothing; K: a key;
+       W: its value next to the carried element) — [C06_signed_forced_frame_*];
+     * s (signed): if the type says s and the run is a satisfaction (B/W: true value; V: success;
+       K: key above a signature CHECKSIG accepts) then the consumed prefix p contains a valid
+       signature (hassig); contrapositive with a signature-free stack: [C06_signed_B/V/K/W];
+       script level: an accepted witness of a signed B script contains a valid signature
+       [C06_signed_accepts];
+     * f (forced, malleability dissat = None): if the type says f and the run ends dissatisfied
+       (B/W: false value, in particular exactly 0; K: any termination) then p contains a valid
+       signature; with a signature-free stack: [C06_forced_B/K/W], [C06_forced_B_not_zero].
+     The internal invariant (SignedSound.sound) also proves z / o (consumption counts) and u
+     over all stacks, because s:X needs o and thresh needs u.
+     Hypotheses: type_of m = ROk t, wf e ke m (the constructors' side conditions: timelocks in
+     1..2^31-1, thresholds 1 <= k <= n; both are needed: SignedSound.wf_needed_after0 /
+     wf_needed_multi0). No hypothesis about e_sigok: a "valid signature" is any stack element x
+     with e_sigok e k x = true for some key bytes k. The Script model enforces NULLFAIL,
+     MINIMALIF (outside SvBase) and minimal numbers unconditionally (Script/Exec.v).
+   NOT yet proved (kept visible): Theorem B in full (an execution that succeeds used a table
+   entry) and e (uniqueness of the dissatisfaction / non-malleability over all stacks). The
+   per-run check enumerates input stacks for those. *)
 From Verif Require Import Exec Ser Ast Types TypeCheck SatSpec ExecLemmas TheoremA.
 From Verif Require Import FrameBase FrameSound FrameDissat.
 
@@ -193,3 +213,132 @@ Example C06_d_nonvacuous :
   (exists t, type_of exd_ms = ROk t /\ c_base (t_corr t) = BB /\ c_dissat (t_corr t) = true) /\
   wf exd_env exd_ke exd_ms /\ no_multi exd_ms.
 Proof. exact (conj exd_keys (conj exd_sig (conj exd_typed exd_wf))). Qed.
+
+(* ---- every input stack: signed / forced (imported here, after the frame statements) ---- *)
+From Verif Require Import SignedLemmas SignedSound.
+
+(* ---- s / f over every input stack ---- *)
+Theorem C06_signed_forced_frame_B :
+  forall (e : env) (ke : keyenv) (m : ms) (t : ty),
+  type_of m = ROk t -> wf e ke m -> c_base (t_corr t) = BB ->
+  forall s al st', exec e (enc ke m) (mkSt s al) = Ok st' ->
+  exists v p s', s = p ++ s' /\ st' = mkSt (v :: s') al /\
+    (m_signed (t_mall t) = true -> truthy v = true -> hassig e p) /\
+    (m_dissat (t_mall t) = DNone -> truthy v = false -> hassig e p).
+Proof. exact signed_forced_frame_B. Qed.
+Print Assumptions C06_signed_forced_frame_B.
+
+Theorem C06_signed_frame_V :
+  forall (e : env) (ke : keyenv) (m : ms) (t : ty),
+  type_of m = ROk t -> wf e ke m -> c_base (t_corr t) = BV ->
+  forall s al st', exec e (enc ke m) (mkSt s al) = Ok st' ->
+  exists p s', s = p ++ s' /\ st' = mkSt s' al /\ (m_signed (t_mall t) = true -> hassig e p).
+Proof. exact signed_frame_V. Qed.
+Print Assumptions C06_signed_frame_V.
+
+Theorem C06_signed_forced_frame_K :
+  forall (e : env) (ke : keyenv) (m : ms) (t : ty),
+  type_of m = ROk t -> wf e ke m -> c_base (t_corr t) = BK ->
+  m_signed (t_mall t) = true /\
+  forall s al st', exec e (enc ke m) (mkSt s al) = Ok st' ->
+  exists kk p s', s = p ++ s' /\ st' = mkSt (kk :: s') al /\
+    (m_dissat (t_mall t) = DNone -> hassig e p).
+Proof. exact signed_forced_frame_K. Qed.
+Print Assumptions C06_signed_forced_frame_K.
+
+Theorem C06_signed_forced_frame_W :
+  forall (e : env) (ke : keyenv) (m : ms) (t : ty),
+  type_of m = ROk t -> wf e ke m -> c_base (t_corr t) = BW ->
+  forall s0 al st', exec e (enc ke m) (mkSt s0 al) = Ok st' ->
+  exists c v p s', s0 = c :: p ++ s' /\
+    (st' = mkSt (c :: v :: s') al \/ st' = mkSt (v :: c :: s') al) /\
+    (m_signed (t_mall t) = true -> truthy v = true -> hassig e p) /\
+    (m_dissat (t_mall t) = DNone -> truthy v = false -> hassig e p).
+Proof. exact signed_forced_frame_W. Qed.
+Print Assumptions C06_signed_forced_frame_W.
+
+Theorem C06_signed_B :
+  forall (e : env) (ke : keyenv) (m : ms) (t : ty),
+  type_of m = ROk t -> wf e ke m -> c_base (t_corr t) = BB -> m_signed (t_mall t) = true ->
+  forall s al st', sigfree e s -> exec e (enc ke m) (mkSt s al) = Ok st' ->
+  exists v r, stk st' = v :: r /\ truthy v = false.
+Proof. exact signed_B. Qed.
+Print Assumptions C06_signed_B.
+
+Theorem C06_signed_V :
+  forall (e : env) (ke : keyenv) (m : ms) (t : ty),
+  type_of m = ROk t -> wf e ke m -> c_base (t_corr t) = BV -> m_signed (t_mall t) = true ->
+  forall s al, sigfree e s -> exec e (enc ke m) (mkSt s al) = Fail.
+Proof. exact signed_V. Qed.
+Print Assumptions C06_signed_V.
+
+Theorem C06_signed_K :
+  forall (e : env) (ke : keyenv) (m : ms) (t : ty),
+  type_of m = ROk t -> wf e ke m -> c_base (t_corr t) = BK ->
+  forall s al st', sigfree e s -> exec e (enc ke m) (mkSt s al) = Ok st' ->
+  forall kk sg r, stk st' = kk :: sg :: r -> e_sigok e kk sg = false.
+Proof. exact signed_K. Qed.
+Print Assumptions C06_signed_K.
+
+Theorem C06_signed_W :
+  forall (e : env) (ke : keyenv) (m : ms) (t : ty),
+  type_of m = ROk t -> wf e ke m -> c_base (t_corr t) = BW -> m_signed (t_mall t) = true ->
+  forall c s al st', sigfree e s -> exec e (enc ke m) (mkSt (c :: s) al) = Ok st' ->
+  exists v s', (stk st' = c :: v :: s' \/ stk st' = v :: c :: s') /\ truthy v = false.
+Proof. exact signed_W. Qed.
+Print Assumptions C06_signed_W.
+
+Theorem C06_signed_accepts :
+  forall (e : env) (ke : keyenv) (m : ms) (t : ty),
+  type_of m = ROk t -> wf e ke m -> c_base (t_corr t) = BB -> m_signed (t_mall t) = true ->
+  forall w, accepts e (enc ke m) w = true -> hassig e w.
+Proof. exact signed_accepts. Qed.
+Print Assumptions C06_signed_accepts.
+
+Theorem C06_forced_B :
+  forall (e : env) (ke : keyenv) (m : ms) (t : ty),
+  type_of m = ROk t -> wf e ke m -> c_base (t_corr t) = BB -> m_dissat (t_mall t) = DNone ->
+  forall s al st', sigfree e s -> exec e (enc ke m) (mkSt s al) = Ok st' ->
+  exists v r, stk st' = v :: r /\ truthy v = true.
+Proof. exact forced_B. Qed.
+Print Assumptions C06_forced_B.
+
+Theorem C06_forced_B_not_zero :
+  forall (e : env) (ke : keyenv) (m : ms) (t : ty),
+  type_of m = ROk t -> wf e ke m -> c_base (t_corr t) = BB -> m_dissat (t_mall t) = DNone ->
+  forall s al r al', sigfree e s -> exec e (enc ke m) (mkSt s al) <> Ok (mkSt ([] :: r) al').
+Proof. exact forced_B_not_zero. Qed.
+Print Assumptions C06_forced_B_not_zero.
+
+Theorem C06_forced_K :
+  forall (e : env) (ke : keyenv) (m : ms) (t : ty),
+  type_of m = ROk t -> wf e ke m -> c_base (t_corr t) = BK -> m_dissat (t_mall t) = DNone ->
+  forall s al, sigfree e s -> exec e (enc ke m) (mkSt s al) = Fail.
+Proof. exact forced_K. Qed.
+Print Assumptions C06_forced_K.
+
+Theorem C06_forced_W :
+  forall (e : env) (ke : keyenv) (m : ms) (t : ty),
+  type_of m = ROk t -> wf e ke m -> c_base (t_corr t) = BW -> m_dissat (t_mall t) = DNone ->
+  forall c s al st', sigfree e s -> exec e (enc ke m) (mkSt (c :: s) al) = Ok st' ->
+  exists v s', (stk st' = c :: v :: s' \/ stk st' = v :: c :: s') /\ truthy v = true.
+Proof. exact forced_W. Qed.
+Print Assumptions C06_forced_W.
+
+(* non-vacuity: a signed fragment meeting the hypotheses; signature-free stacks are rejected
+   (NULLFAIL) or end dissatisfied, a stack with a valid signature satisfies it; a forced fragment
+   fails without a signature and can be dissatisfied once a signature has been consumed *)
+Example C06_signed_nonvacuous :
+  (exists t, type_of sg_pk = ROk t /\ c_base (t_corr t) = BB /\ m_signed (t_mall t) = true /\ wf sg_env sg_ke sg_pk) /\
+  (sigfree sg_env [[1%N]; [5%N]] /\ sigfree sg_env [[]; [5%N]]) /\
+  exec sg_env (enc sg_ke sg_pk) (mkSt [[1%N]; [5%N]] []) = Fail /\
+  exec sg_env (enc sg_ke sg_pk) (mkSt [[]; [5%N]] []) = Ok (mkSt [[]; [5%N]] []) /\
+  exec sg_env (enc sg_ke sg_pk) (mkSt [[7%N]; [5%N]] []) = Ok (mkSt [[1%N]; [5%N]] []).
+Proof. exact (conj sg_pk_type (conj sg_pk_sigfree sg_pk_rejects)). Qed.
+Example C06_forced_nonvacuous :
+  (exists t, type_of sg_forced = ROk t /\ c_base (t_corr t) = BB /\ m_signed (t_mall t) = true
+             /\ m_dissat (t_mall t) = DNone /\ wf sg_env sg_ke sg_forced) /\
+  exec sg_env (enc sg_ke sg_forced) (mkSt [[]; []] []) = Fail /\
+  exec sg_env (enc sg_ke sg_forced) (mkSt [[7%N]; []] []) = Ok (mkSt [[]] []) /\
+  exec sg_env (enc sg_ke sg_forced) (mkSt [[7%N]; [7%N]] []) = Ok (mkSt [[1%N]] []).
+Proof. exact (conj sg_forced_type sg_forced_runs). Qed.
